@@ -536,17 +536,18 @@ def _():
                             "idxs_out": rng.random() < 0.25, "direction": rng.choice(["up", "down"])}, call)
 
 
-@op("upscale", classes=R, group="upscale")
+@op("upscale", classes=R, group="upscale", variants=2)
 def _():
     def call(W, a):
         if W.shape[0] * W.shape[1] < 4 or -(-W.shape[0] // a["s"]) * -(-W.shape[1] // a["s"]) < 2:
             return "skipped-too-small"
         up = W.uparea_distinct() if a["own"] else None
-        flw1, idxs_out = W.flw.upscale(a["s"], method=a["method"], uparea=up)
+        kw = {"r_ratio": a["r_ratio"]} if a.get("r_ratio") is not None and a["method"] in ("ihu", "eam_plus", "eam") else {}
+        flw1, idxs_out = W.flw.upscale(a["s"], method=a["method"], uparea=up, **kw)
         err = W.flw.upscale_error(flw1, idxs_out)
         return flw1.idxs_ds, idxs_out, err, flw1.shape
     return (lambda rng, w: {"s": rng.choice([1, 2, 2, 3]), "method": rng.choice(["ihu", "eam_plus", "eam", "dmm"]),
-                            "own": rng.random() < 0.7}, call)
+                            "own": rng.random() < 0.7, "r_ratio": rng.choice([None, None, 1.5, 1.0, 0.3])}, call)
 
 
 @op("ucat", classes=R, group="subgrid")
